@@ -554,6 +554,8 @@ package soyhtml
 //@   trustedensures[frames-kept;C02] len(s.context) == old(len(s.context)) && forall(i, 0, len(s.context), s.context[i].vars == old(s.context[i].vars) && s.context[i].entered == old(s.context[i].entered) && unchangedmap(s.context[i].vars)) && forall(i, 0, len(s.context), old(s.context)[i].vars == old(s.context[i].vars)) && otherarraysunchanged(s.context) && (base(s.context) == old(base(s.context)) || base(s.context) >= old(allocmark()))
 //@   nosafety
 //@   ensures[restores-current-node-and-writer;C19] s.node == old(s.node) && s.wr == old(s.wr)
+//@   at call (*state).walk#0 assume len(s.context) >= 1 && forall(i, 0, len(s.context), s.context[i].vars < allocmark()) && forall(i, 0, len(s.context) - 1, s.context[i].vars != s.context[len(s.context)-1].vars) && scopeOK(s.context)
+//@   at call (*state).walk#0 assert[a-block-is-rendered-into-a-buffer-of-its-own;C02] arg0 == s && arg1 == node && typeis(s.wr, *bytes.Buffer) && fresh(unbox(s.wr, *bytes.Buffer))
 //@ func (*state).evalFunc
 //@   like stateMethod
 //@   trustedensures[frames-kept;C02] len(s.context) == old(len(s.context)) && forall(i, 0, len(s.context), s.context[i].vars == old(s.context[i].vars) && s.context[i].entered == old(s.context[i].entered) && unchangedmap(s.context[i].vars)) && forall(i, 0, len(s.context), old(s.context)[i].vars == old(s.context[i].vars)) && otherarraysunchanged(s.context) && (base(s.context) == old(base(s.context)) || base(s.context) >= old(allocmark()))
